@@ -26,6 +26,12 @@ Case kinds
                  codes rendered as `ck value scheme version`)
   acc_codes    : accessors of such groups; get_measurements / get_qualitative_evaluations by name where stored
                  names and name arguments carry scheme versions (exact stored name or a sibling variant)
+  acc_tree     : accessors of every group the unfiltered queries return on DAMAGED trees (same mutations as `tree`,
+                 incl. groups seen through another template class after a wrong template id): every accessor
+                 observed separately, exceptions included (model: run_tree_accessors on the rendered tree) - drives
+                 the RuntimeError branches of reference_type / roi / referenced_segment(ation_frame) and
+                 content.py *.from_sequence
+  acc_fixture  : the same on the shipped sr_document*.dcm
 In every kind a code returned by an accessor is numbered by what it compares EQUAL to (both operand orders,
 Code and CodedConcept) among the variants of its code value, not only by its attributes (code_id).
 """
@@ -60,9 +66,10 @@ MODELLED = ('sr/utils.find_content_items (non-recursive); sr/templates._count_ro
             'method, finding_sites, reference_type, roi, referenced_segmentation_frame, referenced_segment, '
             'source_images, get_measurements, get_qualitative_evaluations) and the item skeleton the group '
             'constructors produce; content.py ReferencedSegment/ReferencedSegmentationFrame/VolumeSurface.from_sequence '
-            '(classification of items only)')
+            '(classification of items only); the accessors incl. their RuntimeError branches are also compared on '
+            'damaged trees and on the shipped documents (run_tree_accessors)')
 STRATA = ['report_mem', 'report_doc', 'report_file', 'report_notid', 'acc', 'refuse', 'tree', 'fixture',
-          'report_codes', 'acc_codes']
+          'report_codes', 'acc_codes', 'acc_tree', 'acc_fixture', 'report_opts', 'acc_opts']
 RULE = ('reports of 0..5 groups (planar: 2D region of each graphic type, 3D region, segmentation frame, region in '
         'space; volumetric: 1..3 regions, segment with image/series sources, volume surface, region in space; '
         'image groups), values from small pools so that collisions between groups happen; per report 10 sampled '
@@ -73,7 +80,11 @@ RULE = ('reports of 0..5 groups (planar: 2D region of each graphic type, 3D regi
         'report_codes / acc_codes: every coded concept drawn from few code values x {un-versioned, 2 scheme '
         'versions} x {2 scheme designators} (+ SNOMED members in SCT / SRT spelling), code filters = exact code of '
         'a group / sibling variant / unused, each also alone, given as Code or CodedConcept, with the stored or '
-        'another meaning; accessor codes identified by == against all variants. '
+        'another meaning; accessor codes identified by == against all variants; acc_tree: 1..3 groups, 1..3 of 19 '
+        'damages (duplicated / dropped / foreign reference items, wrong template id, lost CONTAINS relationship, second '
+        'tracking uid / finding / site item, extra 2D / 3D region, volume surface items of two graphic types, dropped / '
+        'extra source items, second Imaging Measurements container), every accessor of every group the unfiltered '
+        'queries return observed separately, exceptions included; acc_fixture: the same on the shipped documents. '
         'non-trivial = at least two groups and a non-empty, non-total answer or a refusal; distinct by case hash')
 NOT_EXECUTED = []
 EXHAUSTIVE = {'quick': False, 'thorough': False}
@@ -87,10 +98,12 @@ CLASSES = ['1.2.840.10008.5.1.4.1.1.2',        # 0 CT
            '1.2.840.10008.5.1.4.1.1.66.4',     # 3 SEG
            '1.2.840.10008.5.1.4.1.1.481.3',    # 4 RTSTRUCT
            '1.2.840.10008.5.1.4.1.1.128',      # 5 PET (never referenced)
-           '1.2.840.10008.5.1.4.1.1.66.5']     # 6 surface segmentation
+           '1.2.840.10008.5.1.4.1.1.66.5',     # 6 surface segmentation
+           '1.2.840.10008.5.1.4.1.1.67']       # 7 real world value map (referenced by report_opts groups only)
 IMG_INST = [1, 2, 3, 4, 5, 6]        # class = inst % 3
 SEG_INST = [11, 12, 13]              # class 3
 RT_INST = [21, 22]                   # class 4
+RWV_INST = [31, 32]                  # class 7
 G2 = {1: 'POINT', 2: 'MULTIPOINT', 3: 'POLYLINE', 4: 'CIRCLE', 5: 'ELLIPSE'}
 G3 = {1: 'POINT', 2: 'MULTIPOINT', 3: 'POLYLINE', 4: 'POLYGON', 5: 'ELLIPSE', 6: 'ELLIPSOID'}
 RESERVED = {  # id -> (value, scheme, meaning)
@@ -116,6 +129,8 @@ RT = {None: 'RNone', 'CONTAINS': 'CONTAINS', 'HAS OBS CONTEXT': 'HAS_OBS_CONTEXT
 
 
 def cls_of(inst):
+    if inst in RWV_INST:
+        return 7
     if inst in SEG_INST:
         return 3
     if inst in RT_INST:
@@ -449,6 +464,106 @@ def gen_cases(rng, tier):
             cases.append({'kind': 'fixture', 'file': name, 'seed': rng.randint(0, 10**6), 'nf': 8})
     # drawn last, so that the cases of the other kinds are the ones they were before this dimension existed
     cases += _gen_code_cases(rng, tier)
+    cases += _gen_acc_tree_cases(rng, tier)
+    cases += _gen_opts_cases(rng, tier)
+    return cases
+
+
+ACC_MUTS = ['dup_ref', 'drop_ref', 'add_foreign_ref', 'wrong_tid', 'wrong_tid', 'ref_relationship', 'dup_tracking',
+            'add_region', 'add_vs_to_planar', 'drop_source', 'drop_source', 'add_series_and_image',
+            'add_series_and_image', 'add_region3d', 'second_im_container', 'add_empty_container', 'dup_code',
+            'surface_other_gt', 'region_no_source_rel']
+
+
+def _opts_group(rng, g):
+    """constructor options the record model does not carry (algorithm identification, real world value map) and
+    measurement options, all of which put items INSIDE the group or NESTED in its NUM items; values are drawn from
+    the pools of the group-level fields so that a recursive / mis-scoped search would match them"""
+    g = dict(g)
+    mx = []
+    for _ in g['meas']:
+        if rng.random() < 0.3:
+            mx.append(None)
+            continue
+        mx.append({'track': rng.randint(1, 4) if rng.random() < 0.5 else None, 'tident': rng.randint(1000, 1004),
+                   'sites': [rng.randint(130, 134) for _ in range(rng.choice([0, 1, 2]))],
+                   'method': rng.randint(120, 122) if rng.random() < 0.4 else None,
+                   'deriv': rng.randint(110, 113) if rng.random() < 0.3 else None,
+                   'qual': rng.randint(110, 113) if rng.random() < 0.3 else None,
+                   'imgs': [_src(rng) for _ in range(rng.choice([0, 0, 1, 2]))],
+                   'algo': rng.random() < 0.3, 'rwvm': rng.choice(RWV_INST) if rng.random() < 0.2 else None})
+    g['x'] = {'algo': rng.choice([0, 1, 2]) if rng.random() < 0.5 else None,
+              'rwvm': rng.choice(RWV_INST) if rng.random() < 0.5 else None, 'mx': mx}
+    return g
+
+
+def _nested_filters(rng, groups):
+    """filters naming a value that occurs only NESTED in a measurement of some group (must not make the group match
+    unless the group itself carries it)"""
+    out = []
+    for g in groups:
+        for m in (g.get('x') or {}).get('mx') or []:
+            if not m:
+                continue
+            if m['track'] is not None:
+                out.append({'tuid': m['track']})
+            for z in m['sites']:
+                out.append({'site': z})
+            for ci in m['imgs']:
+                out.append({'inst': ci[1]})
+                out.append({'cls': ci[0], 'inst': ci[1]})
+            for key in ('deriv', 'qual'):
+                if m[key] is not None:
+                    out.append({'finding': m[key]})
+        if (g.get('x') or {}).get('rwvm') is not None:
+            out.append({'inst': g['x']['rwvm']})
+            out.append({'cls': 7})
+    rng.shuffle(out)
+    return out[:6]
+
+
+def _gen_opts_cases(rng, tier):
+    n = {'quick': 24, 'thorough': 250, 'search': 150}[tier]
+    cases = []
+    for j in range(n):
+        ng = rng.choice([1, 2, 3, 4])
+        notid = rng.choice([0.0, 0.0, 1.0])
+        groups = [_opts_group(rng, _group(rng, i, notid=notid, allow_ris=False)) for i in range(ng)]
+        for g in groups:
+            if not g['has_tid'] and g['ref'][0] == 'rs' and len(g['ref'][1]) < 2:
+                g['ref'][1].append([g['ref'][1][0][0]] + _src(rng))
+        ropts = {'title': rng.choice([0, 1, 2]), 'lang': rng.random() < 0.3, 'procs': rng.choice([1, 1, 2, 3])}
+        # (no image library: its HAS ACQ CONTEXT items are outside the relationship alphabet of the rendered trees)
+        base = {'groups': groups, 'io': rng.choice(['mem', 'doc', 'file']), 'pre': rng.choice(['person', 'device']),
+                'hd_codes': rng.random() < 0.5, 'ropts': ropts}
+        if j % 3:
+            cases.append(dict(base, kind='report_opts', filters=_filters(rng, groups, 6) + _nested_filters(rng, groups)))
+        else:
+            allnames = [m[0] for g in groups for m in g['meas']]
+            allev = [e[0] for g in groups for e in g['evals']]
+            cases.append(dict(base, kind='acc_opts', muts=[],
+                              mname=rng.choice(allnames + [149]) if rng.random() < 0.7 else None,
+                              ename=rng.choice(allev + [159, 5, 7, 17]) if rng.random() < 0.7 else None))
+    return cases
+
+
+def _gen_acc_tree_cases(rng, tier):
+    """accessors on damaged trees / shipped documents (drawn last: the earlier kinds keep their cases)"""
+    n = {'quick': 30, 'thorough': 300, 'search': 200}[tier]
+    cases = []
+    for j in range(n):
+        ng = rng.choice([1, 2, 3])
+        groups = [_group(rng, i, notid=rng.choice([0.0, 0.0, 1.0])) for i in range(ng)]
+        muts = [[rng.choice(ACC_MUTS), rng.randrange(ng), rng.randint(0, 10**6)] for _ in range(rng.choice([1, 1, 2, 3]))]
+        allnames = [m[0] for g in groups for m in g['meas']]
+        allev = [e[0] for g in groups for e in g['evals']]
+        cases.append({'kind': 'acc_tree', 'groups': groups, 'io': rng.choice(['mem', 'mem', 'file']), 'pre': 'person',
+                      'hd_codes': False, 'muts': muts,
+                      'mname': rng.choice(allnames + [149]) if rng.random() < 0.7 else None,
+                      'ename': rng.choice(allev + [159, 5, 7, 17]) if rng.random() < 0.7 else None})
+    for name in ('sr_document.dcm', 'sr_document_with_multiple_groups.dcm'):
+        for j in range(2 if tier == 'quick' else 6):
+            cases.append({'kind': 'acc_fixture', 'file': name, 'seed': rng.randint(0, 10**6)})
     return cases
 
 
@@ -584,6 +699,30 @@ def _mk_sources(so):
     return {'source_images': [sr.SourceImageForSegmentation(CLASSES[c], inst_str(i)) for c, i in so[1]]}
 
 
+def _mk_meas_opts(g, j, C):
+    """options of the j-th measurement of a report_opts group: items NESTED in the NUM item (a tracking identifier,
+    finding sites, method, derivation, qualifier, referenced images, algorithm identification, value map)"""
+    from highdicom import sr
+    mx = (g.get('x') or {}).get('mx')
+    if not mx or j >= len(mx) or not mx[j]:
+        return {}
+    m, kw = mx[j], {}
+    if m.get('track') is not None:
+        kw['tracking_identifier'] = sr.TrackingIdentifier(uid=tuid_str(m['track']), identifier=f"t{m['tident']}")
+    if m.get('sites'):
+        kw['finding_sites'] = [sr.FindingSite(C(z)) for z in m['sites']]
+    for key, arg in (('method', 'method'), ('deriv', 'derivation'), ('qual', 'qualifier')):
+        if m.get(key) is not None:
+            kw[arg] = C(m[key])
+    if m.get('imgs'):
+        kw['referenced_images'] = [sr.SourceImageForMeasurement(CLASSES[c], inst_str(i)) for c, i in m['imgs']]
+    if m.get('algo'):
+        kw['algorithm_id'] = sr.AlgorithmIdentification(name='malgo', version='2')
+    if m.get('rwvm') is not None:
+        kw['referenced_real_world_value_map'] = sr.RealWorldValueMap(inst_str(m['rwvm']))
+    return kw
+
+
 def _build_group(g, hd_codes):
     from highdicom import sr
     from pydicom.sr.codedict import codes
@@ -596,9 +735,15 @@ def _build_group(g, hd_codes):
         finding_sites=[sr.FindingSite(C(s)) for s in g['sites']] or None,
         session=None if g['session'] is None else f"s{g['session']}",
         time_point_context=None if g['tp'] is None else sr.TimePointContext(time_point='tp', time_point_type=C(g['tp'])),
-        measurements=[sr.Measurement(name=C(n), value=v, unit=codes.UCUM.Millimeter) for n, v in g['meas']] or None,
+        measurements=[sr.Measurement(name=C(n), value=v, unit=codes.UCUM.Millimeter, **_mk_meas_opts(g, j, C))
+                      for j, (n, v) in enumerate(g['meas'])] or None,
         qualitative_evaluations=[sr.QualitativeEvaluation(name=C(n), value=C(v)) for n, v in g['evals']] or None,
     )
+    x = g.get('x') or {}
+    if x.get('algo') is not None:
+        kw['algorithm_id'] = sr.AlgorithmIdentification(name='algo', version='1', parameters=[f'p{i}' for i in range(x['algo'])] or None)
+    if x.get('rwvm') is not None:
+        kw['referenced_real_world_value_map'] = sr.RealWorldValueMap(inst_str(x['rwvm']))
     if g['sites'] == [] and g['tuid'] % 2:
         kw['finding_sites'] = []
     r = g['ref']
@@ -701,9 +846,16 @@ def _build_report(c):
     kw = {}
     if c.get('pre') == 'library':
         kw['referenced_images'] = [synth.base('ct_image.dcm')]
+    ro = c.get('ropts') or {}
+    if ro.get('title'):
+        kw['title'] = codes.cid7021.ImagingMeasurementReport if ro['title'] == 1 else code_of(151)
+    if ro.get('lang'):
+        kw['language_of_content_item_and_descendants'] = sr.LanguageOfContentItemAndDescendants(
+            sr.CodedConcept('de-DE', 'RFC5646', 'German (Germany)'))
+    procs = [codes.LN.CTUnspecifiedBodyRegion, code_of(5), code_of(111)][:ro.get('procs', 1)]
     if groups:
         rep = sr.MeasurementReport(observation_context=_observation_context(c.get('pre')),
-                                   procedure_reported=codes.LN.CTUnspecifiedBodyRegion,
+                                   procedure_reported=procs if len(procs) > 1 else procs[0],
                                    imaging_measurements=groups, **kw)
     else:
         # the constructor refuses an empty list; a report without measurement groups is one whose
@@ -831,6 +983,21 @@ def _apply_mutation(rep, m):
         new = [sr.SourceSeriesForSegmentation(series_str(2)),
                sr.SourceImageForSegmentation(CLASSES[0], inst_str(3))]
         set_items(items + new[:rng.choice([1, 2])])
+    elif name == 'dup_code':           # a second Finding / Finding category / Method / Finding Site item
+        z, rel = rng.choice([(5, 'CONTAINS'), (7, 'CONTAINS'), (8, 'CONTAINS'), (6, 'HAS CONCEPT MOD'),
+                             (5, 'HAS PROPERTIES'), (17, 'CONTAINS'), (151, 'CONTAINS'), (151, 'HAS PROPERTIES')])
+        new = sr.CodeContentItem(name=code_of(z), value=code_of(rng.choice([111, 131, 161])), relationship_type=rel)
+        pos = rng.choice([0, len(items)])
+        set_items(items[:pos] + [new] + items[pos:])
+    elif name == 'surface_other_gt':   # volume surface items of two graphic types
+        new = sr.Scoord3DContentItem(name=code_of(10), graphic_type='ELLIPSE', graphic_data=_gdata3(5),
+                                     frame_of_reference_uid=FOR_UID, relationship_type='CONTAINS')
+        pos = rng.choice([0, len(items)])
+        set_items(items[:pos] + [new] + items[pos:])
+    elif name == 'region_no_source_rel':   # the reference / source items lose their CONTAINS relationship
+        idx = [i for i, it in enumerate(items) if it.name.value in ('121233', '121232', '121191', '121214', '121231')]
+        if idx:
+            items[rng.choice(idx)].RelationshipType = rng.choice(['HAS PROPERTIES', 'INFERRED FROM'])
 
 
 # ---------------------------------------------------------------------------------------------
@@ -953,10 +1120,152 @@ def _accessors(g, K, mname, ename, hd_codes, srt=False, alt=False):
     return out
 
 
+class _AlphaIds:
+    """numbering of the generated alphabets (no foreign values)"""
+
+    @staticmethod
+    def codeobj(c):
+        return code_id(c, False)
+
+    uid = staticmethod(uid_id)
+
+    @staticmethod
+    def text(s):
+        return int(str(s)[1:])
+
+
+class _TreeIds:
+    """numbering shared with the rendering of a shipped document (ids: the _Ids used by render_item)"""
+
+    def __init__(self, ids):
+        self.ids = ids
+        self.uid = ids.uid
+        self.text = ids.text
+
+    def codeobj(self, c):
+        return self.ids.code(str(c.value), str(c.scheme_designator), c.scheme_version)
+
+
+def _accessors_tree(g, K, mname_code, ename_code, ids):
+    """observation of one group of a damaged / third-party tree, shaped like C16_Model.acc_val: every accessor is
+    called separately and an exception is that accessor's observation"""
+    from highdicom.sr import ImageRegion
+    cid = ids.codeobj
+    oc = lambda c: None if c is None else cid(c)  # noqa: E731
+
+    def iref(it):
+        return [ids.uid(it.referenced_sop_class_uid), ids.uid(it.referenced_sop_instance_uid)]
+
+    def sources(obj):
+        if obj.has_source_images():
+            return ['images', [iref(s) for s in obj.source_images_for_segmentation]]
+        return ['series', ids.uid(obj.source_series_for_segmentation.value)]
+
+    def mlist(name):
+        return [[cid(m.name), int(round(float(m.value)))] for m in g.get_measurements(name=name)]
+
+    def elist(name):
+        return [[cid(e.name), cid(e.value)] for e in g.get_qualitative_evaluations(name=name)]
+    out = [catch(lambda: None if g.tracking_uid is None else ids.uid(g.tracking_uid)),
+           catch(lambda: None if g.tracking_identifier is None else ids.text(g.tracking_identifier)),
+           catch(lambda: oc(g.finding_type)), catch(lambda: oc(g.finding_category)), catch(lambda: oc(g.method)),
+           catch(lambda: [cid(s.value) for s in g.finding_sites]),
+           catch(lambda: mlist(None)), catch(lambda: elist(None)),
+           catch(lambda: mlist(mname_code)), catch(lambda: elist(ename_code))]
+    if K == 'I':
+        return out + [catch(lambda: [iref(s) for s in g.source_images])]
+    out.append(catch(lambda: cid(g.reference_type)))
+    if K == 'P':
+        def roi():
+            r = g.roi
+            if r is None:
+                return None
+            if isinstance(r, ImageRegion):
+                gt = [k for k, v in G2.items() if v == r.graphic_type.value][0]
+                kids = list(r.ContentSequence) if 'ContentSequence' in r else []
+                return ['2D', gt] + (iref(kids[0]) if kids else [-1, -1])
+            return ['3D', [k for k, v in G3.items() if v == r.graphic_type.value][0]]
+
+        def sf():
+            r = g.referenced_segmentation_frame
+            if r is None:
+                return None
+            return [ids.uid(r.referenced_sop_class_uid), ids.uid(r.referenced_sop_instance_uid)] + \
+                iref(r.source_image_for_segmentation)
+        return out + [catch(roi), catch(sf)]
+
+    def vroi():
+        r = g.roi
+        if r is None:
+            return None
+        if isinstance(r, list):
+            res = []
+            for x in r:
+                kids = list(x.ContentSequence) if 'ContentSequence' in x else []
+                res.append([[k for k, v in G2.items() if v == x.graphic_type.value][0]] +
+                           (iref(kids[0]) if kids else [-1, -1]))
+            return ['regions', res]
+        gt = [k for k, v in G3.items() if v == r.graphic_type.value][0]
+        return ['surface', gt, len(r._graphic_data_items), sources(r)]
+
+    def seg():
+        r = g.referenced_segment
+        if r is None:
+            return None
+        return [ids.uid(r.referenced_sop_class_uid), ids.uid(r.referenced_sop_instance_uid), sources(r)]
+    return out + [catch(vroi), catch(seg)]
+
+
+def _run_acc_tree(rep, mname_code, ename_code, ids):
+    out = []
+    for K, fn in (('P', rep.get_planar_roi_measurement_groups), ('V', rep.get_volumetric_roi_measurement_groups),
+                  ('I', rep.get_image_measurement_groups)):
+        out.append(catch(lambda: [_accessors_tree(g, K, mname_code, ename_code, ids) for g in fn()]))
+    return out
+
+
+def _run_fixture_acc(c):
+    """shipped document: accessors of every group of the unfiltered queries + the rendered tree"""
+    import random
+    import synth
+    from highdicom import sr
+    from pydicom.sr.coding import Code
+    common.import_highdicom()
+    rng = random.Random(c['seed'])
+    doc = sr.srread(os.path.join(synth.TEST_FILES, c['file']))
+    rep = doc.content
+    ids = _Ids()
+    root = render_item(ids, rep[0], 4)
+    # by-name arguments: a NUM / CODE name that occurs in some group, or an unused one
+    names = {'NUM': [], 'CODE': []}
+    for im in rep[0].ContentSequence:
+        for grp in (im.get('ContentSequence', []) if im.ValueType == 'CONTAINER' else []):
+            for it in grp.get('ContentSequence', []):
+                if it.ValueType in names:
+                    names[it.ValueType].append(it.ConceptNameCodeSequence[0])
+
+    def pick(vt):
+        if not names[vt] or rng.random() < 0.25:
+            return (None, None) if rng.random() < 0.5 else (code_of(149), 149)
+        v = rng.choice(names[vt])
+        cv = v.get('CodeValue') or v.get('LongCodeValue') or v.get('URNCodeValue')
+        return (Code(str(cv), str(v.CodingSchemeDesignator), str(v.CodeMeaning), v.get('CodingSchemeVersion') or None),
+                ids.code(str(cv), str(v.CodingSchemeDesignator), v.get('CodingSchemeVersion')))
+    (mc, mz), (ec, ez) = pick('NUM'), pick('CODE')
+    out = _run_acc_tree(rep, mc, ec, _TreeIds(ids))
+    return out, f'(run_tree_accessors {root} {oz(mz)} {oz(ez)})'
+
+
 def run_impl(c):
     k = c['kind']
     if k == 'fixture':
         return _run_fixture(c)[0]
+    if k == 'acc_fixture':
+        return _run_fixture_acc(c)[0]
+    if k in ('acc_tree', 'acc_opts'):
+        rep = _build_report(c)
+        return _run_acc_tree(rep, None if c['mname'] is None else code_of(c['mname']),
+                             None if c['ename'] is None else code_of(c['ename']), _AlphaIds)
     rep = _build_report(c)
     fo = _fopts(c)
     if k in ('acc', 'acc_codes'):
@@ -1119,10 +1428,16 @@ def coq_term(c):
     k = c['kind']
     if k == 'fixture':
         return _run_fixture(c)[1]
-    if k == 'tree':
+    if k == 'acc_fixture':
+        return _run_fixture_acc(c)[1]
+    if k in ('tree', 'report_opts'):
         common.import_highdicom()
         c2 = dict(c, io='mem')
         return _tree_term(_build_report(c2), c['filters'])
+    if k in ('acc_tree', 'acc_opts'):
+        common.import_highdicom()
+        root = render_item(_Ids(), _build_report(dict(c, io='mem'))[0], 4)
+        return f"(run_tree_accessors {root} {ocz(c['mname'])} {ocz(c['ename'])})"
     gs = '[' + '; '.join(_coq_group(g) for g in c['groups']) + ']'
     pre = PRE_ITEMS if c.get('pre') == 'library' else '[]'
     if k in ('acc', 'acc_codes'):
@@ -1368,9 +1683,48 @@ def _check_acc(c, out):
     return None
 
 
+def _touched(c):
+    """indices of the groups a mutation was applied to (the index is taken modulo the CURRENT number of items of
+    the Imaging Measurements container, which add_empty_container increases)"""
+    n = len(c['groups'])
+    t = set()
+    for name, gi, _ in c['muts']:
+        t.add(gi % n)
+        if name == 'add_empty_container':
+            n += 1
+    return t
+
+
+def _check_acc_tree(c, out):
+    """damaged trees: the unfiltered queries answer (C16_any_tree_unfiltered); a group no mutation touched still
+    reports what it was constructed with; the by-name accessors return a sub-sequence of the unnamed ones"""
+    touched = _touched(c)
+    by_id = {g['tid']: (i, g) for i, g in enumerate(c['groups'])}
+    for K, rows in zip('PVI', out):
+        if isinstance(rows, Err):
+            return f'unfiltered {K} query raised {rows} on a damaged tree'
+        for a in rows:
+            if not any(isinstance(x, Err) for x in a[6:10]):
+                if a[8] != [m for m in a[6] if m in a[8]] or a[9] != [e for e in a[7] if e in a[9]]:
+                    return f'by-name accessor is not a sub-sequence of the unnamed one: {a}'
+            if isinstance(a[1], Err) or a[1] not in by_id:
+                continue
+            i, g = by_id[a[1]]
+            if i in touched:
+                continue
+            if g['k'] != K and not _ambiguous(g):
+                return f'untouched group {a[1]} of kind {g["k"]} returned by {K} query'
+            want = [g['tuid'], g['tid'], g['finding'], g['cat'], g['method'], g['sites'], g['meas'], g['evals'],
+                    [m for m in g['meas'] if c['mname'] is None or m[0] == c['mname']],
+                    [e for e in g['evals'] if c['ename'] is None or e[0] == c['ename']]]
+            if a[:10] != want:
+                return f'untouched group {a[1]}: accessors {a[:10]}, constructed with {want}'
+    return None
+
+
 def oracle(c, out):
     k = c['kind']
-    if k in ('report_mem', 'report_doc', 'report_file', 'report_notid', 'refuse', 'report_codes'):
+    if k in ('report_mem', 'report_doc', 'report_file', 'report_notid', 'refuse', 'report_codes', 'report_opts'):
         return _check_queries(c, out)
     if k in ('acc', 'acc_codes'):
         return _check_acc(c, out)
@@ -1387,6 +1741,27 @@ def oracle(c, out):
                 if not isinstance(r, Err) and [t for t in r0 if t in r] != r:
                     return f'filtered answer {r} is not a sub-sequence of the unfiltered answer {r0}'
         return None
+    if k == 'acc_fixture':
+        if any(isinstance(r, Err) for r in out):
+            return f'unfiltered query on shipped document raised: {out}'
+        for K, rows in zip('PVI', out):
+            for a in rows:
+                bad = [x for x in a if isinstance(x, Err)]
+                if bad:
+                    return f'accessor of a {K} group of the shipped document raised {bad[0]}: {a}'
+                if a[8] != [m for m in a[6] if m in a[8]] or a[9] != [e for e in a[7] if e in a[9]]:
+                    return f'by-name accessor is not a sub-sequence of the unnamed one: {a}'
+        return None
+    if k in ('acc_tree', 'acc_opts'):
+        msg = _check_acc_tree(c, out)
+        if msg is None and k == 'acc_opts':       # nothing is damaged: no accessor may raise, every group is seen
+            rows = [a for r in out for a in r]
+            if any(isinstance(x, Err) for a in rows for x in a):
+                return f'an accessor raised on a group built by the template classes: {rows}'
+            if sorted(a[1] for a in rows if not _ambiguous(c['groups'][a[1] - 1000])) != \
+                    [g['tid'] for g in c['groups'] if not _ambiguous(g)]:
+                return f'groups returned by the unfiltered queries: {[a[1] for a in rows]}'
+        return msg
     if k == 'tree':
         # damaged trees: only structural sanity (the model comparison carries the case)
         for row in out:
@@ -1401,8 +1776,13 @@ def nontrivial(c, out):
     k = c['kind']
     if k in ('acc', 'acc_codes'):
         return len(c['groups']) >= 2
-    if k == 'fixture':
+    if k == 'acc_tree':        # some group is returned and some accessor raises or some group is seen by no query
+        rows = [a for r in out if not isinstance(r, Err) for a in r]
+        return bool(rows) and (any(isinstance(x, Err) for a in rows for x in a) or len(rows) != len(c['groups']))
+    if k in ('fixture', 'acc_fixture'):
         return True
+    if k == 'acc_opts':
+        return len(c['groups']) >= 2
     n = len(c['groups'])
     for row in out:
         for r in row:
